@@ -167,15 +167,6 @@ impl Nfa {
     }
 
     pub(crate) fn alternation(&mut self, mut nfa: Nfa) {
-        if self.is_empty() {
-            // If the current NFA is empty, set the start and end states of the current NFA to the
-            // start and end states of the new NFA
-            self.set_start_state(nfa.start_state);
-            self.set_end_state(nfa.end_state);
-            self.states = nfa.states;
-            return;
-        }
-
         // Apply an offset to the state numbers of the given NFA
         let (nfa_start_state, nfa_end_state) = nfa.shift_ids(self.states.len());
 
@@ -367,7 +358,14 @@ impl Nfa {
                 Ok(nfa)
             }
             Ast::Alternation(ref a) => {
-                for ast in a.asts.iter() {
+                let mut asts = a.asts.iter();
+                // The first alternative initializes the NFA, even if it is the empty one.
+                if let Some(ast) = asts.next() {
+                    let pattern = nfa.pattern;
+                    nfa = Self::try_from_ast(ast.clone(), char_class_registry)?;
+                    nfa.pattern = pattern;
+                }
+                for ast in asts {
                     let nfa2: Nfa = Self::try_from_ast(ast.clone(), char_class_registry)?;
                     nfa.alternation(nfa2);
                 }
